@@ -573,3 +573,122 @@ func c07UpstreamRegisteredBeforeUse(c *Ctx, rule string) {
 			return ""
 		}())
 }
+
+// c08ScopeByUpstreamIdentity: for an ordinary upstream the response-cache scope is the upstream's
+// identity (its String()), not its position in the configuration: the cache survives a reload, positions do not.
+func c08ScopeByUpstreamIdentity(c *Ctx, rule string) {
+	f := c.fn(rule, "control", "DnsController.responseCacheScope")
+	if f == nil {
+		return
+	}
+	info := f.Info()
+	g := f.Graph()
+	var up types.Object
+	if f.Type != nil {
+		for _, fld := range f.Type.Params.List {
+			for _, nm := range fld.Names {
+				if t := info.TypeOf(nm); t != nil && strings.HasSuffix(t.String(), "dns.Upstream") {
+					up = info.ObjectOf(nm)
+				}
+			}
+		}
+	}
+	nById, bad := 0, ""
+	for _, p := range g.Find(func(nd ast.Node) bool { _, ok := nd.(*ast.ReturnStmt); return ok }) {
+		rs := p.Node().(*ast.ReturnStmt)
+		if len(rs.Results) != 1 {
+			continue
+		}
+		nonNil := false
+		for _, gd := range g.Guards(p) {
+			if be, ok := gd.Cond.(*ast.BinaryExpr); ok && gd.Polarity && be.Op == token.NEQ {
+				for _, pr := range [][2]ast.Expr{{be.X, be.Y}, {be.Y, be.X}} {
+					if id, ok := ast.Unparen(pr[0]).(*ast.Ident); ok && up != nil && info.ObjectOf(id) == up && core.ExprStr(pr[1]) == "nil" {
+						nonNil = true
+					}
+				}
+			}
+		}
+		usesIdentity := false
+		ast.Inspect(rs.Results[0], func(m ast.Node) bool {
+			if call, ok := m.(*ast.CallExpr); ok {
+				if recv, name, isM := methodCall(call); isM && name == "String" {
+					if id, ok := ast.Unparen(recv).(*ast.Ident); ok && info.ObjectOf(id) == up {
+						usesIdentity = true
+					}
+				}
+			}
+			return true
+		})
+		if nonNil {
+			if usesIdentity {
+				nById++
+			} else if bad == "" {
+				bad = fmt.Sprintf("the return at %s (upstream known) yields %s", c.pos(rs.Pos()), core.ExprStr(rs.Results[0]))
+			}
+		}
+	}
+	c.R.Checkf(rule, "upstream-scope-is-the-upstreams-identity@responseCacheScope", c.pos(f.Pos()), bad == "" && nById >= 1 && up != nil,
+		"when the answering upstream is known the cache scope is built from its identity, upstream.String() (%d such return(s))%s", nById, func() string {
+			if bad != "" {
+				return " — VIOLATED: " + bad
+			}
+			if nById == 0 {
+				return " — VIOLATED: no return on the `upstream != nil` edge uses upstream.String(): a scope made of the upstream's position is re-used for another server after a reload that reorders or edits dns.upstream (the cache and its keys survive the reload)"
+			}
+			return ""
+		}())
+}
+
+// c08FixedTtlForEveryConfiguredValue: a configured fixed_domain_ttl is applied whenever the name is in the
+// table — including the documented value 0 ("do not cache"): the deadline computed from it is guarded by the
+// table lookup only, not by a test of the value.
+func c08FixedTtlForEveryConfiguredValue(c *Ctx, rule string) {
+	n, bad := 0, ""
+	for _, u := range units(c.P, "control", func(f string) bool { return strings.HasPrefix(f, "dns_control") }) {
+		info := u.Info()
+		g := u.Graph()
+		// v, ok := <x>.fixedDomainTtl[...]
+		for _, p := range g.Find(func(nd ast.Node) bool {
+			as, ok := nd.(*ast.AssignStmt)
+			if !ok || len(as.Lhs) != 2 || len(as.Rhs) != 1 {
+				return false
+			}
+			ix, ok := ast.Unparen(as.Rhs[0]).(*ast.IndexExpr)
+			return ok && strings.HasSuffix(core.FieldOf(info, ix.X), ".fixedDomainTtl")
+		}) {
+			as := p.Node().(*ast.AssignStmt)
+			vid, ok := as.Lhs[0].(*ast.Ident)
+			if !ok {
+				continue
+			}
+			vobj := info.ObjectOf(vid)
+			// the condition this lookup is the init of, and every condition, must not test the value
+			n++
+			ast.Inspect(u.Body, func(m ast.Node) bool {
+				is, ok := m.(*ast.IfStmt)
+				if !ok {
+					return true
+				}
+				uses := false
+				ast.Inspect(is.Cond, func(k ast.Node) bool {
+					if id, ok := k.(*ast.Ident); ok && info.ObjectOf(id) == vobj {
+						uses = true
+					}
+					return true
+				})
+				if uses && bad == "" {
+					bad = fmt.Sprintf("%s tests the configured value: %s at %s", u.Name, core.ExprStr(is.Cond), c.pos(is.Pos()))
+				}
+				return true
+			})
+		}
+	}
+	c.R.Checkf(rule, "fixed-ttl-applied-for-every-configured-value", "control/dns_control.go", bad == "" && n >= 1,
+		"where a name's fixed_domain_ttl is looked up (%d site(s)) the value is applied on the lookup's success alone%s", n, func() string {
+			if bad != "" {
+				return " — VIOLATED: " + bad + ": the documented value 0 (ask the upstream every time) then falls through to the upstream TTL and the answer is served from the cache"
+			}
+			return ""
+		}())
+}
